@@ -80,6 +80,9 @@ def sample_row(pos, fault):
     fl2_units = ['RFI', 'Channel', 'a.u.', None, 'rfi'][pos % 5]
     r = dict(id='S%d' % (pos + 1), inst='INST1', beads='B_OK', file='cell_%d.fcs' % (pos % 5), gate_fraction=[0.85, 0.5, 0.3, 1.0, 0.7][pos % 5],
              units={FL1: 'MEF', FL2: fl2_units})
+    if pos % 5 == 3:
+        # the float file of position 4 is linear in every channel: MEF from the log-amplified beads would be a (correct) row error
+        r['units'] = {FL1: 'RFI', FL2: fl2_units}
     if fault == 'ok':
         return r
     if fault == 'notfound':
